@@ -76,6 +76,114 @@ def conditions(body):
     return out
 
 
+
+CMP = re.compile(r"(?<![<>=!\-])(<=|>=|==|!=|<|>)(?![<>=])")
+
+
+def _clean_body(body):
+    t = re.sub(r'"(?:[^"\\]|\\.)*"', '""', body)           # string literals
+    t = re.sub(r"b?'(?:[^'\\]|\\.)'", "0", t)                 # char literals
+    t = re.sub(r"&?'[a-z_]+\b", "", t)                          # lifetimes
+    # nested fn signatures (generics, return types, where clauses)
+    t = re.sub(r"\bfn\s+\w+\s*(<[^>{]*>)?\s*\([^)]*\)\s*(->[^{;]+)?", "fn ", t)
+    t = re.sub(r"::\s*<[^<>]*(<[^<>]*>[^<>]*)*>", "", t)         # turbofish
+    t = re.sub(r"\blet\s+(mut\s+)?(\w+)\s*:\s*[^=;]+=", r"let \2 =", t)  # let type annotations
+    t = re.sub(r"\bas\s+[A-Za-z_][\w:]*(<[^<>]*>)?", "", t)   # casts
+    return t
+
+
+def _operand(t, i, step):
+    """Text of the operand to the left (step -1) or right (step +1) of position i."""
+    depth, j = 0, i
+    out = []
+    opens, closes = ("([", ")]") if step > 0 else (")]", "([")
+    while 0 <= j < len(t):
+        c = t[j]
+        if c in opens:
+            depth += 1
+        elif c in closes:
+            if depth == 0:
+                break
+            depth -= 1
+        elif depth == 0 and (c in ",;{}" or t.startswith("&&", j if step > 0 else j - 1) or t.startswith("||", j if step > 0 else j - 1)
+                             or (c == "=" and t[j - 1:j + 2].strip("=") == "" and False)):
+            break
+        elif depth == 0 and c == "|" :
+            break
+        out.append(c)
+        j += step
+    s = "".join(out if step > 0 else reversed(out)).strip()
+    # an `if`/`return`/`=`/`=>` before the operand is not part of it
+    s = re.split(r"\b(?:if|while|return|match|else|in)\b|=>|(?<![<>=!])=(?![=>])", s)[-1 if step < 0 else 0].strip()
+    return s
+
+
+def _classify(op):
+    op = op.strip().lstrip("!*&").strip()
+    while op.startswith("(") and op.endswith(")"):
+        op = op[1:-1].strip()
+    if re.fullmatch(r"-?\s*(0x[0-9a-fA-F_]+|[0-9][0-9_]*)", op):
+        return str(int(op.replace(" ", "").replace("_", ""), 0))
+    m = re.fullmatch(r"(?:[a-z_]+::)*([A-Z][A-Z0-9_]+)", op)
+    if m:
+        return m.group(1)
+    return "_"
+
+
+def cmp_shapes(body):
+    """Sorted multiset of the comparisons of a piece of Rust, each reduced to
+    `[!]<left><op><right>` where an operand is kept only if it is an integer literal or an
+    ALL_CAPS constant and is `_` otherwise; `!` marks a comparison inside a negated group `!( … )`.
+    Insensitive to renaming, local `let`s, moving code into closures or helper functions of the
+    same extracted region; sensitive to every operator flip, dropped negation and changed constant."""
+    t = _clean_body(body)
+    # which positions lie inside a negated parenthesis group
+    neg = [False] * len(t)
+    stack = []
+    for i, c in enumerate(t):
+        if c == "(":
+            j = i - 1
+            while j >= 0 and t[j].isspace():
+                j -= 1
+            # `!(` is a negation unless the `!` belongs to a macro name (`assert!(`)
+            stack.append(j >= 0 and t[j] == "!" and not (j > 0 and (t[j - 1].isalnum() or t[j - 1] == "_")))
+        elif c == ")":
+            if stack:
+                stack.pop()
+        neg[i] = any(stack)
+    out = []
+    for m in CMP.finditer(t):
+        left = _classify(_operand(t, m.start() - 1, -1))
+        right = _classify(_operand(t, m.end(), +1))
+        out.append(("!" if neg[m.start()] else "") + left + m.group(1) + right)
+    return sorted(out)
+
+
+def fn_bodies(src, rel, include=None, exclude=()):
+    """Concatenated bodies of the functions of a source region, optionally only `include`,
+    never those in `exclude`."""
+    out = []
+    for m in re.finditer(r"\bfn\s+(\w+)", src):
+        name = m.group(1)
+        if name in exclude or (include is not None and name not in include):
+            continue
+        k = src.find("{", m.end())
+        semi = src.find(";", m.end())
+        if k < 0 or (0 <= semi < k):
+            continue
+        depth, j = 0, k
+        while j < len(src):
+            if src[j] == "{":
+                depth += 1
+            elif src[j] == "}":
+                depth -= 1
+                if depth == 0:
+                    break
+            j += 1
+        out.append(src[k:j + 1])
+    return "\n".join(out)
+
+
 def lean_str_list(xs):
     return "[" + ", ".join('"%s"' % x.replace("\\", "\\\\").replace('"', '\\"') for x in xs) + "]"
 
@@ -172,6 +280,10 @@ def run(repo):
             body = exlib.fn_body(rd[m2.start():], fn, 0, "map/src/reader.rs")
         name = re.sub(r"[^A-Za-z]", "", impl.replace("<'a>", ""))
         s += "/-- conditions of `%s::%s` (map/src/reader.rs) -/\ndef conds_%s_%s : List String := %s\n" % (impl, fn, name, fn, lean_str_list(conditions(body)))
+    s += "/-- comparison shapes (see `cmp_shapes` in tools/extract.d/datafile.py) of `from_slice_rest`, `from_slice`, `offset` in map/src/format.rs -/\n"
+    s += "def cmp_map_format : List String := %s\n" % lean_str_list(cmp_shapes(fn_bodies(src, rel, include=("from_slice_rest", "from_slice", "offset"))))
+    s += "/-- comparison shapes of `get_index_impl`, `get_index_opt` and every `from_raw` in map/src/reader.rs -/\n"
+    s += "def cmp_map_reader : List String := %s\n" % lean_str_list(cmp_shapes(fn_bodies(rd, "map/src/reader.rs", include=("get_index_impl", "get_index_opt", "from_raw"))))
     s += "\nend Tw.Gen.MapItems\n"
 
     rel2 = "datafile/src/format.rs"
@@ -218,5 +330,15 @@ def run(repo):
         raise exlib.ExtractError("seek_base initialiser of CallbackData not found in datafile/src/file.rs")
     t += "def file_seek_base_expr : String := %s\n" % lean_str_list([" ".join(m3[-1].split())])[1:-1]
     t += "def conds_file_ensure_filesize : List String := %s\n" % lean_str_list(conditions(exlib.fn_body(fl, "ensure_filesize", 0, "datafile/src/file.rs")))
+    accessors = ("data_size_file", "item_type_indices", "find_item", "read_data", "debug_dump", "item", "item_header",
+                 "items", "item_types", "item_type_items", "num_items", "num_data", "num_item_types", "version",
+                 "item_type", "new", "map_fn", "read_i32s", "i32_to_bytes", "has_compressed_data", "on_eof", "from")
+    t += "/-- comparison shapes of the validation code of datafile/src/raw.rs: every function except the accessors %s -/\n" % ", ".join(accessors)
+    t += "def cmp_raw_validation : List String := %s\n" % lean_str_list(cmp_shapes(fn_bodies(raw, "datafile/src/raw.rs", exclude=accessors)))
+    t += "/-- comparison shapes of the header code of datafile/src/format.rs (everything except the `ItemHeader` bit accessors) -/\n"
+    t += "def cmp_format_header : List String := %s\n" % lean_str_list(cmp_shapes(fn_bodies(f, rel2, exclude=("new", "type_id", "id", "set_type_id_and_id"))))
+    t += "/-- comparison shapes of `ensure_filesize` in datafile/src/file.rs, and whether the seek base handed to `read_data` mentions `datafile_start` -/\n"
+    t += "def cmp_file_ensure_filesize : List String := %s\n" % lean_str_list(cmp_shapes(exlib.fn_body(fl, "ensure_filesize", 0, "datafile/src/file.rs")))
+    t += "def file_seek_base_uses_start : Bool := %s\n" % ("true" if "datafile_start" in m3[-1] else "false")
     t += "\nend Tw.Gen.Datafile\n"
     return {"MapItems.lean": s, "Datafile.lean": t}
